@@ -94,6 +94,18 @@ class Engine(EngineBase):
             new_sp = {**old, **upd}
         elif kind in ("move", "clone"):
             new_sp = old
+        if kind in ("sp_assign", "update_sp") and new_sp is not None:
+            # two input classes for which the dependency's in-place update keeps the old value (None over a
+            # nested collection; equal but differently typed scalars) are C04's findings, not fault behaviour
+            for k in list(new_sp):
+                if k in old:
+                    o, v = old[k], new_sp[k]
+                    if (v is None and isinstance(o, (list, dict))) or \
+                            (not isinstance(o, (list, dict)) and not isinstance(v, (list, dict))
+                             and o == v and type(o) is not type(v)):
+                        new_sp[k] = "t%d" % rng.randrange(9)
+                        if kind == "update_sp":
+                            op[2][k] = new_sp[k]
         if kind in ("init_existing", "remove", "clear", "reset"):
             dest = "free"
         sc = {"knobs": knobs, "jobs": jobs, "op": op, "dest": dest,
